@@ -129,6 +129,27 @@ def validate_trace(job):
             "tail": out[-3000:] if not ok else "", "stats": parse_tlc_stats(out)}
 
 
+# situations (tags of spec/MonHits.tla) the validated traces of a node-level property are expected to contain
+EXPECTED_SITUATIONS = {
+    "C09": ["C09:datagram-from-Down-or-superseded-sender", "C09:identity-replaced"],
+    "C10": ["C10:incarnation-bumped", "C10:identity-changed", "C10:incarnation-at-MAX-1-or-MAX",
+            "C10:suspicion-about-self-in-input", "C10:identity-moved-to-another-address"],
+    "C11": ["C11:timeout-takes-effect", "C11:stale-epoch-timeout", "C11:timeout-cancelled-(refuted/renewed/already-Down)",
+            "C11:Down-record-forgotten"],
+    "C12": ["C12:round-closed-with-suspicion", "C12:round-closed-with-evidence", "C12:indirect-requests-sent",
+            "C12:relay-naming-self-rejected"],
+    "C13": ["C13:stale-epoch-timer-fired", "C13:incomplete-probe-cycle", "C13:epoch-changed"],
+    "C15": ["C15:update-accepted-for-broadcast", "C15:update-left-after-max_transmissions", "C15:update-superseded",
+            "C15:datagram-with-entries-left-out", "C10:identity-moved-to-another-address"],
+    "C16": ["C16:item-accepted", "C16:handler-error", "C16:items-on-the-wire", "C16:broadcast()-sent", "C16:item-invalidated"],
+    "C19": ["C19:relay-towards-peer-named-target", "C19:own-address-record-in-table"],
+    "C07": ["send:Ping", "send:Ack", "send:PingReq", "send:IndirectPing", "send:IndirectAck", "send:ForwardedAck",
+            "send:Announce", "send:Feed", "send:Gossip", "send:Broadcast", "send:TurnUndead"],
+    "C08": ["notify:MemberUp", "notify:MemberDown", "notify:Rename", "notify:Active", "notify:Idle", "notify:Defunct",
+            "notify:Rejoin"],
+}
+
+
 def load_known():
     p = os.path.join(ROOT, "known_findings.json")
     if not os.path.exists(p):
@@ -366,6 +387,9 @@ def main():
         ev["calls"] += res["conf"]["calls"]
         ev["divergences"] += res["conf"]["ndiv"]
         ev["tlc_trace_states"] += r["stats"].get("distinct", 0)
+        for t, n in (res.get("hits") or {}).items():
+            ev.setdefault("hits", {})
+            ev["hits"][t] = ev["hits"].get(t, 0) + n
         for d in res["conf"]["divs"][:3]:
             log("CONFORMANCE-DIVERGENCE property=%s trace=%s event=%s call=%s fields=%s"
                 % (pid, os.path.relpath(r["trace"], ROOT), d["line"], d["call"], ",".join(sorted(d["fields"]))))
@@ -425,6 +449,13 @@ def main():
         if have < need.get(tier, 1):
             log("COVERAGE-WARNING property=%s goal %s reached %d < %d" % (pid, g, have, need.get(tier, 1)))
 
+    # vacuity guard (spec/MonHits.tla): the situations each clause of the property talks about must have occurred
+    hits = ev.get("hits", {})
+    if hits:
+        for t in EXPECTED_SITUATIONS.get(pid, []):
+            if hits.get(t, 0) == 0:
+                log("COVERAGE-WARNING property=%s situation never exercised by the validated traces: %s" % (pid, t))
+
     level = P["level"]
     coverage = {
         "states": mc_states + ev["tlc_trace_states"],
@@ -448,6 +479,8 @@ def main():
         "drivers": ev["drivers"][:12],
         "coverage_goals": ev.get("coverage_goals", {}),
         "monitors": P["monitors"],
+        "situations_exercised": {t: n for t, n in sorted(hits.items())
+                                 if t.startswith(pid + ":") or not re.match(r"C\d\d:", t)},
         "known_findings_hit": known_hits,
         "tool_errors": tool_errors[:5],
     }
